@@ -16,6 +16,7 @@ func init() {
 			"PV-ALIAS (no in-place rewrite of label values: they may be the container's shared resource attributes); the merge iterator rules of C04 (limit keeps the first records in time order)",
 			"the daemon stream read API (no record lost before the limit applies); LP-OFFLOAD scan (filters after a line-rewriting stage stay in the engine)",
 			"the distinct rule (key = (label, value)); drop/keep delete exactly the selected labels",
+			"PV-ROLE label_format rename: Get/Set/Delete of one pair happen in one loop iteration",
 		},
 		NotDecided: []string{"'in time order' across streams depends on the storage delivering records in time order (C04)", "count equality with the number of matches is C01"},
 		Rules: func(r *Run) {
@@ -30,7 +31,8 @@ func init() {
 			ruleDaemonLog(r)                                                 // no record is lost before the limit is applied: the stream is read through io.ReadFull / io.CopyN
 			ruleLPOffload(r)                                                 // line filters after a stage that rewrites the line are not evaluated by the storage on the old line
 			ruleDistinct(r)
-			ruleDropKeep(r) // the labels a record keeps decide its stream: drop/keep delete exactly the selected labels
+			ruleDropKeep(r)             // the labels a record keeps decide its stream: drop/keep delete exactly the selected labels
+			ruleLabelFormatDirection(r) // a renamed label stays: the source is deleted in the iteration that renamed it
 		},
 	})
 }
